@@ -402,11 +402,21 @@ func URLRequest(t *rapid.T, ss *SchemaSpec, o URLOpts) *URLReq {
 			}
 
 			if !o.Valid {
-				pool = append(pool, "nope", "-", "", "-nope", " ", "  ", "- ")
+				pool = append(pool, "nope", "-", "", "-nope", " ", "  ", "- ", "--id", "---id", "--", "+id")
 				pool = append(pool, relNames(resType)...)
+
+				// Exactly one leading dash means descending; more dashes, or
+				// other decorations, do not name an attribute.
+				for _, a := range attrNames(resType) {
+					pool = append(pool, "--"+a, "---"+a, "+"+a, a+"-", " "+a)
+				}
 			}
 
 			n := rapid.IntRange(0, 5).Draw(t, "nrules")
+			if !o.Valid && rapid.IntRange(0, 7).Draw(t, "manyrules") == 0 {
+				n = rapid.IntRange(6, 12).Draw(t, "nrules-many")
+			}
+
 			items := []string{}
 
 			for j := 0; j < n; j++ {
@@ -448,16 +458,26 @@ func URLRequest(t *rapid.T, ss *SchemaSpec, o URLOpts) *URLReq {
 			hasFilter = true
 			v := HostileString(t, "label")
 
+			if rapid.IntRange(0, 5).Draw(t, "label-brace") == 0 {
+				// Labels that look like the start of a filter object once
+				// something in front of the brace is dropped or decoded.
+				v = rapid.SampledFrom([]string{" {x}", "  {}", " {", "\t{a}", "\n {\"f\":1}", "{x}", "{}", "a{b}", "\u00a0{}"}).Draw(t, "label-brace-shape")
+			}
+
 			if o.Valid {
 				// A label is read as the body of a JSON string: quotes,
 				// backslashes and control characters are written as JSON
-				// escapes; it must not start with '{' nor be empty.
-				v = strings.TrimLeft(v, "{")
+				// escapes (any character may be); its first raw byte must
+				// not be '{' and it must not be empty.
 				if v == "" {
 					v = "lbl"
 				}
 
-				q := QuoteJSON(v)
+				q, style := JSONString(t, v, "label-json")
+				if style != "u-escape-all" && strings.HasPrefix(v, "{") {
+					q = "\"\\u007b" + q[2:]
+				}
+
 				v = q[1 : len(q)-1]
 			}
 
